@@ -1,5 +1,5 @@
 """C01 - daily soil-water balance closes (kind B, exploration)."""
-from .common import std_case, std_run, basin_regime, BASIN_PROFILE, hardpan_regime, HARDPAN_PROFILE, STATE_MEASURE  # noqa: F401
+from .common import shallow_pond_regime, SHALLOW_POND_PROFILE, std_case, std_run, basin_regime, BASIN_PROFILE, hardpan_regime, HARDPAN_PROFILE, STATE_MEASURE  # noqa: F401
 from ..monitors import mon_c01
 
 ID = "C01"
@@ -19,6 +19,9 @@ PROFILE = {"reactive_p": 0.3, "bunds": 0.45, "mulch_p": 0.4, "field_p": 0.6, "fa
 
 
 def gen_case(rng, tier, idx):
+    if idx % 8 == 3:
+        # a series of storms each leaving a pond of a few millimetres behind empty bunds under a stressed canopy
+        return shallow_pond_regime(rng, std_case(rng, dict(PROFILE, **SHALLOW_POND_PROFILE)))
     if idx % 4 == 1:
         # flooded basin whose management changes at harvest (bunds lowered or removed) with the off-season simulated
         return basin_regime(rng, std_case(rng, dict(PROFILE, **BASIN_PROFILE)))
